@@ -97,6 +97,17 @@ class Node:
     """open node entry: (kind, site, counts, first) as a tuple for hashing"""
 
 
+def field_role(pe):
+    """role of a ParserBase field from its type, so that renaming the field changes nothing: the TokenKind field is the
+    current token, the bool field is the after-error flag"""
+    t = pe.get("t", "")
+    if t.endswith("token_kind::TokenKind"):
+        return "current"
+    if t == "bool":
+        return "is_after_error"
+    return pe.get("n")
+
+
 def mknode(kind, site, counts=(), first=NOFIRST, foreign=None):
     return (kind, site, counts, first, foreign)
 
@@ -316,7 +327,7 @@ class ParserAI:
                     v = UNK
             elif isinstance(pe, dict) and "f" in pe:
                 if v == ("selfobj",):
-                    n = pe.get("n")
+                    n = field_role(pe)
                     if n == "current":
                         v = CUR
                     elif n == "is_after_error":
@@ -354,7 +365,7 @@ class ParserAI:
                 if not rest:
                     return SELF
                 if isinstance(rest[0], dict) and "f" in rest[0] and len(rest) == 1:
-                    n = rest[0].get("n")
+                    n = field_role(rest[0])
                     if n == "current":
                         return ("refval", CUR)
                     return ("fieldref", n)
@@ -603,7 +614,7 @@ class ParserAI:
         base = st.vals.get(l, UNK)
         proj = place["p"]
         if proj and proj[0] == "*" and base == SELF and len(proj) == 2 and isinstance(proj[1], dict):
-            n = proj[1].get("n")
+            n = field_role(proj[1])
             if n == "current":
                 self.set_current(st, val, body.path)
             elif n == "is_after_error":
